@@ -27,7 +27,7 @@ func c10Profile(noEviction bool) func(c *sim.RunCtx) {
 			MaxHolds:     []int{0, 2}[t.Choose(2)],
 			PutWeight:    5, GetWeight: 5, FindWeight: 4, CompWeight: 0,
 		}
-		before := gatherMetrics().indexDiscards("sim")
+		before := indexDiscardCount()
 		if noEviction {
 			// a store larger than everything that is uploaded: nothing rotates out
 			if cfg.Disk {
@@ -38,6 +38,18 @@ func c10Profile(noEviction bool) func(c *sim.RunCtx) {
 			cfg.Old, cfg.Cur, cfg.New, cfg.Spare = 3, 3, 3, 3
 			wo.Objects = 3 + t.Choose(4)
 			wo.OpsPerClient = 4 + t.Choose(10)
+		}
+		if wconfigPossible(cfg) && cfg.Disk && t.Chance(1, 3) {
+			// assembled by NewBlobAccessFromConfiguration; half of these behind
+			// an existence cache, which keys by the key format the hierarchical
+			// backend announces: a cached "present" under one name must not
+			// leak to an unrelated name
+			cfg.WConfig = true
+			cfg.ExistCache = t.Chance(1, 2)
+			if cfg.BlockCount() == 0 {
+				cfg.Spare = 1
+			}
+			c.Count("probe_wconfig_run", 1)
 		}
 		opts := &storeRunOpts{cfg: cfg, wo: wo}
 		opts.setup = func(w *storeWorld) {
@@ -52,11 +64,11 @@ func c10Profile(noEviction bool) func(c *sim.RunCtx) {
 				}
 				for _, u := range w.m.uploads {
 					if u.Obj == op.Obj && u.Valid && u.Status == upSucceeded && u.Return <= op.InvokeSeq && isComponentPrefix(u.Inst, op.Inst) {
-						if gatherMetrics().indexDiscards("sim") != before {
+						if indexDiscardCount() != before {
 							c.Count("runs_excluded_index_discard", 1)
 							return
 						}
-						if w.e.alloc.Releases > 0 {
+						if w.releases() > 0 {
 							c.Count("runs_excluded_rotation", 1)
 							return
 						}
@@ -72,7 +84,7 @@ func c10Profile(noEviction bool) func(c *sim.RunCtx) {
 					}
 					for _, u := range w.m.uploads {
 						if u.Obj == op.Set[i] && u.Valid && u.Status == upSucceeded && u.Return <= op.InvokeSeq && isComponentPrefix(u.Inst, op.SetInst[i]) {
-							if gatherMetrics().indexDiscards("sim") != before || w.e.alloc.Releases > 0 {
+							if indexDiscardCount() != before || w.releases() > 0 {
 								c.Count("runs_excluded_index_discard", 1)
 								return
 							}
